@@ -7,6 +7,7 @@
 (*  policy  [route, method, caller, ovrule, ovkind, status, admin_status,  *)
 (*           changed, leaked]                                              *)
 (*  scope   [caller, projs, status, data]   GET /usages naming projects    *)
+(*  hdr     [probe, method, route, v, status, hver, vary]                  *)
 (***************************************************************************)
 EXTENDS Surface, Json, IOUtils
 
@@ -26,6 +27,12 @@ RouteVerdict(ln) ==
 \cup (IF d = "handled" /\ ln.method = "GET" /\ ln.status \in {200, 204}
          /\ ((ln.v >= CacheHeadersFrom /\ ~ln.cache) \/ (ln.v < CacheHeadersFrom /\ ln.anycache))
       THEN {"C14_cache_headers"} ELSE {})
+
+\* hdr lines: responses of every origin (routing layer, policy, handler,
+\* object layer, success).  The version of every probe is an accepted one.
+HeaderVerdict(ln) ==
+     (IF ln.status # 401 /\ ln.hver # ln.v THEN {"C14_version_header"} ELSE {})
+\cup (IF ln.status # 401 /\ ~ln.vary THEN {"C14_vary_header"} ELSE {})
 
 FeatureVerdict(ln) ==
   IF ln.present = Present(ln.fid, ln.v) THEN {}
@@ -66,6 +73,7 @@ Next == /\ i <= Len(Log)
                     CASE Log[i].kind = "route" -> RouteVerdict(Log[i])
                       [] Log[i].kind = "feature" -> FeatureVerdict(Log[i])
                       [] Log[i].kind = "scope" -> ScopeVerdict(Log[i])
+                      [] Log[i].kind = "hdr" -> HeaderVerdict(Log[i])
                       [] OTHER -> PolicyVerdict(Log[i])>>)
         /\ i' = i + 1
         /\ TLCSet(1, i)
